@@ -292,14 +292,14 @@ package packets
 // verif:func packets.FixedHeader.Encode arith=bv
 //@ requires buf != nil && 0 <= buf.blen && buf.blen <= 1099511627000 && 0 <= fh.Remaining && fh.Remaining <= 268435455
 //@ modifies buf.blen, buf.bdata
-//@ ensures C26-first-byte-is-type-and-flags: buf.bdata[old(buf.blen)] == (fh.Type << 4) | ((fh.Dup ? 1 : 0) << 3) | (fh.Qos << 1) | (fh.Retain ? 1 : 0)
+//@ ensures C26-first-byte-is-type-and-flags: fh.Type <= 15 && fh.Qos <= 3 ==> buf.bdata[old(buf.blen)] == fh.Type * 16 + (fh.Dup ? 8 : 0) + fh.Qos * 2 + (fh.Retain ? 1 : 0)
 //@ ensures C26-then-the-remaining-length: buf.blen == old(buf.blen) + 1 + vlen(int64(fh.Remaining)) && varint(buf.bdata, old(buf.blen) + 1, vlen(int64(fh.Remaining))) == int64(fh.Remaining)
 //@ ensures earlier-bytes-kept: forall i int :: 0 <= i && i < old(buf.blen) ==> buf.bdata[i] == old(buf.bdata[i])
 // the header byte the encoder writes is decoded back to the same type and flags (for flag combinations the decoder accepts)
 // verif:lemma roundtrip_header_byte arith=bv
 //@ vars t byte, dup bool, qos byte, retain bool, hb byte
 //@ requires t <= 15 && qos <= 3
-//@ requires hb == (t << 4) | ((dup ? 1 : 0) << 3) | (qos << 1) | (retain ? 1 : 0)
+//@ requires hb == t * 16 + (dup ? 8 : 0) + qos * 2 + (retain ? 1 : 0)
 //@ ensures C26-type-and-publish-flags-read-back: hb >> 4 == t && ((hb & 8) != 0 <==> dup) && (hb >> 1) & 3 == qos && ((hb & 1) != 0 <==> retain)
 
 // ---- the buffer pool as the encoders use it (C41 proves the pool itself): a pooled buffer is handed out empty and is not
@@ -320,7 +320,7 @@ package packets
 //@ modifies buf.blen, buf.bdata, pk.FixedHeader.Remaining, nput
 //@ ensures no-error: r0 == nil
 //@ ensures C26-remaining-length-equals-the-number-of-bytes-that-follow: buf.blen == old(buf.blen) + 1 + vlen(int64(pk.FixedHeader.Remaining)) + pk.FixedHeader.Remaining && varint(buf.bdata, old(buf.blen) + 1, vlen(int64(pk.FixedHeader.Remaining))) == int64(pk.FixedHeader.Remaining)
-//@ ensures C26-header-byte-is-type-and-flags: buf.bdata[old(buf.blen)] == (pk.FixedHeader.Type << 4) | ((pk.FixedHeader.Dup ? 1 : 0) << 3) | (pk.FixedHeader.Qos << 1) | (pk.FixedHeader.Retain ? 1 : 0)
+//@ ensures C26-header-byte-is-type-and-flags: pk.FixedHeader.Type <= 15 && pk.FixedHeader.Qos <= 3 ==> buf.bdata[old(buf.blen)] == pk.FixedHeader.Type * 16 + (pk.FixedHeader.Dup ? 8 : 0) + pk.FixedHeader.Qos * 2 + (pk.FixedHeader.Retain ? 1 : 0)
 //@ ensures C26-mqtt3-acknowledgement-is-just-the-packet-identifier: pk.ProtocolVersion != 5 ==> pk.FixedHeader.Remaining == 2 && buf.bdata[old(buf.blen) + 2] == byte(pk.PacketID >> 8) && buf.bdata[old(buf.blen) + 3] == byte(pk.PacketID)
 //@ ensures earlier-bytes-kept: forall i int :: 0 <= i && i < old(buf.blen) ==> buf.bdata[i] == old(buf.bdata[i])
 
@@ -350,9 +350,10 @@ package packets
 //@ modifies buf.blen, buf.bdata, pk.FixedHeader.Remaining, nput
 //@ ensures C26-qos-without-packet-id-is-refused: pk.FixedHeader.Qos > 0 && pk.PacketID == 0 ==> r0 != nil && buf.blen == old(buf.blen)
 //@ ensures C26-remaining-length-equals-the-number-of-bytes-that-follow: r0 == nil ==> buf.blen == old(buf.blen) + 1 + vlen(int64(pk.FixedHeader.Remaining)) + pk.FixedHeader.Remaining && varint(buf.bdata, old(buf.blen) + 1, vlen(int64(pk.FixedHeader.Remaining))) == int64(pk.FixedHeader.Remaining)
-//@ ensures C26-header-byte-is-type-and-flags: r0 == nil ==> buf.bdata[old(buf.blen)] == (pk.FixedHeader.Type << 4) | ((pk.FixedHeader.Dup ? 1 : 0) << 3) | (pk.FixedHeader.Qos << 1) | (pk.FixedHeader.Retain ? 1 : 0)
+//@ ensures C26-header-byte-is-type-and-flags: r0 == nil && pk.FixedHeader.Type <= 15 && pk.FixedHeader.Qos <= 3 ==> buf.bdata[old(buf.blen)] == pk.FixedHeader.Type * 16 + (pk.FixedHeader.Dup ? 8 : 0) + pk.FixedHeader.Qos * 2 + (pk.FixedHeader.Retain ? 1 : 0)
 //@ ensures C26-mqtt3-body-is-topic-packet-id-payload: r0 == nil && pk.ProtocolVersion != 5 ==> pk.FixedHeader.Remaining == pubRemaining3(pk)
 //@ ensures C26-topic-length-prefix-follows-the-header: r0 == nil ==> buf.bdata[old(buf.blen) + 1 + vlen(int64(pk.FixedHeader.Remaining))] == byte(len(pk.TopicName) >> 8) && buf.bdata[old(buf.blen) + 2 + vlen(int64(pk.FixedHeader.Remaining))] == byte(len(pk.TopicName))
 // (that the topic bytes themselves follow the prefix is not stated: the quantified clause over 64-bit vector indices is not decided by the solvers)
 //@ ensures C26-payload-is-the-tail-unchanged: r0 == nil ==> (forall i int :: 0 <= i && i < len(pk.Payload) ==> buf.bdata[buf.blen - len(pk.Payload) + i] == pk.Payload[i])
+//@ ensures only-the-buffer-grows: buf.blen >= old(buf.blen) && buf.blen <= old(buf.blen) + 4294967295 && buf.rpos == old(buf.rpos)
 //@ ensures earlier-bytes-kept: forall i int :: 0 <= i && i < old(buf.blen) ==> buf.bdata[i] == old(buf.bdata[i])
